@@ -77,6 +77,12 @@ def _strip_x3(text: str, log: list) -> str:
     return "\n".join(out)
 
 
+def _loop_key(t: str):
+    """`//@ loop 2 <<` -> 2 (ordinal);  `//@ loop \`for ridx in\` <<` -> 'for ridx in' (the loop whose header contains it)"""
+    m = re.match(r"//@ \w+ `(.*)` <<", t)
+    return m.group(1) if m else int(t.split()[2])
+
+
 def parse_template(path: str):
     """-> list of segments: ('raw', text) | ('extract', dict)"""
     lines = []
@@ -127,7 +133,7 @@ def parse_template(path: str):
                 elif t.startswith("//@ dec <<"):
                     blk["dec"], i = multiline(i)
                 elif t.startswith("//@ loop "):
-                    n = int(t.split()[2])
+                    n = _loop_key(t)
                     blk["loops"][n], i = multiline(i)
                 elif re.match(r"//@ (before|after|afterall|beforeall)(#\d+)?\?? `", t):
                     # a trailing `?` makes the hint optional: if the anchor statement is gone the hint is dropped
@@ -141,17 +147,17 @@ def parse_template(path: str):
                     body, i = multiline(i)
                     blk["inserts"].append((m.group(1), m.group(2), body))
                 elif t.startswith("//@ afterloop "):
-                    n = int(t.split()[2])
+                    n = _loop_key(t)
                     body, i = multiline(i)
                     blk["inserts"].append(("afterloop", n, body))
                 elif t.startswith("//@ startloop "):
                     # proof text placed at the very start of the body of loop ordinal n (after its opening brace)
-                    n = int(t.split()[2])
+                    n = _loop_key(t)
                     body, i = multiline(i)
                     blk["inserts"].append(("startloop", n, body))
                 elif t.startswith("//@ endloop "):
                     # proof text placed at the very end of the body of loop ordinal n (before its closing brace)
-                    n = int(t.split()[2])
+                    n = _loop_key(t)
                     body, i = multiline(i)
                     blk["inserts"].append(("endloop", n, body))
                 elif t.startswith("//@ bodystart <<"):
@@ -369,7 +375,17 @@ def build_item(repo: str, blk: dict, report: dict):
     bmask = mask_source(body)
     ins = []  # (offset, text, origin)
     loops = find_loops(bmask)
+
+    def loop_no(k):
+        # an ordinal, or the first loop whose header (keyword .. opening brace) contains the anchor text
+        if isinstance(k, int):
+            return k
+        for q, (a, b) in enumerate(loops):
+            if k in body[a:b]:
+                return q
+        raise LostAnchor(f"{key}: no loop with `{k}` in its header ({len(loops)} loops)")
     for n, txt in blk["loops"].items():
+        n = loop_no(n)
         if n >= len(loops):
             raise LostAnchor(f"{key}: loop #{n} not found ({len(loops)} loops)")
         ins.append((loops[n][1], "\n" + txt + "\n", "inv"))
@@ -377,6 +393,8 @@ def build_item(repo: str, blk: dict, report: dict):
         if where == "bodystart":
             ins.append((1, "\n" + txt + "\n", "proof"))
             continue
+        if where in ("afterloop", "startloop", "endloop"):
+            anchor = loop_no(anchor)
         if where == "afterloop":
             if anchor >= len(loops):
                 raise LostAnchor(f"{key}: loop #{anchor} not found ({len(loops)} loops)")
